@@ -574,6 +574,11 @@ def sort_complex(a):
 
 
 def _array_comp_helper(a, b):
+    # a Python sequence of quantities has no .units of its own
+    if isinstance(a, (list, tuple)) and any(hasattr(_, "units") for _ in a):
+        a = unyt_array(a)
+    if isinstance(b, (list, tuple)) and any(hasattr(_, "units") for _ in b):
+        b = unyt_array(b)
     au = getattr(a, "units", NULL_UNIT)
     bu = getattr(b, "units", NULL_UNIT)
     if bu != au and au != NULL_UNIT and bu != NULL_UNIT:
